@@ -135,6 +135,28 @@ def make_cases(seed, n, names):
     return cases
 
 
+def generated_cases(cases):
+    """the requests of the hand-modelled inv / div / batchInverse addressed to the TRANSLATED functions (module ExtInvGen)"""
+    out = []
+    dead = "[ dead dead dead ]"
+    for c in cases:
+        toks = c["line"].lstrip("!").split()
+        lines = []
+        if toks[0] == "g3inv":
+            lines = ["!G3_inv___a3a3 %s [ %s ]" % (dead, " ".join(toks[1:4])), "!G3_inv___pp %s [ %s ]" % (dead, " ".join(toks[1:4]))]
+        elif toks[0] == "g3div":
+            lines = ["!G3_div %s [ %s ] %s" % (dead, " ".join(toks[1:4]), toks[4])]
+        elif toks[0] == "g3batchinv":
+            ws = toks[2:-1]
+            lines = ["!G3_batchInverse [ %s ] [ %s ] %x" % (" ".join(["a5a5"] * len(ws)), " ".join(ws), len(ws) // 3)]
+        for l in lines:
+            g = dict(c)
+            g["line"] = l
+            g["key"] = c["key"] + "/generated:" + l.split()[0].lstrip("!")
+            out.append(g)
+    return out
+
+
 def campaign(res, harness, driver, cases, flavour):
     lines = [c["line"] for c in cases]
     impl = run_parallel(harness, lines)
@@ -167,14 +189,16 @@ def run(tier, seed):
                 "one-like elements (1,x,y), inv/div in a forked child (zero refused), mulScalar with negative / huge decimal "
                 "strings, batchInverse for lengths 1..66; non-trivial = non-canonical coefficient, aliasing, zero, or length>1")
     res.assumptions = ["hand models of inv/div/mulScalar/batchInverse (Model/Ext.lean) are tied to the code on the executed cases only",
-                       "spec = schoolbook polynomial arithmetic over integers reduced mod p and x^3 = x + 1"]
+                       "spec = schoolbook polynomial arithmetic over integers reduced mod p and x^3 = x + 1",
+                       "C09_generated_*: about Gen/ExtInvGen.lean (inv, div, batchInverse translated from the C++ on every run, "
+                       "fuel-bounded); the generated functions are executed against the code as well"]
     st = run_gen()
-    standard_proof_phase(res, MODULE, "C09_", st, ["Scalar", "Ext"], thorough=(tier == "thorough"))
+    standard_proof_phase(res, MODULE, "C09_", st, ["Scalar", "Ext", "InvGen", "ExtInvGen"], thorough=(tier == "thorough"))
     drv, err = build_driver()
     if err:
         res.broken.append(("model driver build", err))
         drv = NO_MODEL
-    names = (st.get("modules", {}).get("Ext", {}) or {}).get("names", [])
+    names = (st.get("modules", {}).get("Ext", {}) or {}).get("names", []) + (st.get("modules", {}).get("Ext", {}) or {}).get("untranslated", [])
     n = 2500 if tier == "quick" else 150000
     for fl in (["O1"] if tier == "quick" else ["O1", "O3", "asan"]):
         h, err = build_harness(fl)
@@ -182,5 +206,6 @@ def run(tier, seed):
             res.broken.append(("harness build (%s)" % fl, err))
             continue
         if drv:
-            campaign(res, h, drv, make_cases(seed + len(fl), n if fl != "asan" else n // 10, names), fl)
+            cases = make_cases(seed + len(fl), n if fl != "asan" else n // 10, names)
+            campaign(res, h, drv, cases + generated_cases(cases), fl)
     return res.finish()
